@@ -491,6 +491,9 @@ def check_c15(tier):
         os.makedirs(root, exist_ok=True)
         if n % 2 == 0:
             text = render_fn(fc["fn"]) + "\n\ndef test_uses(fx_sample):\n    pass\n"
+            if n % 4 == 0:
+                # parameter names that ALSO occur earlier on the def line: inside `def` / `async`, inside the function's name
+                text = text.replace("dep_a", "d").replace("dep_b", "sample").replace("dep_c", "fx")
         else:
             # the fixture is the LAST statement and the document has NO final newline: every range must still lie inside it
             text = "def test_uses(fx_sample):\n    pass\n\n\n" + render_fn(fc["fn"]).rstrip("\n")
@@ -498,7 +501,7 @@ def check_c15(tier):
         # the fixtures fx_sample may request exist, so that the call hierarchy has something to point at
         with open(os.path.join(root, "conftest.py"), "w") as fh:
             fh.write("import pytest\n" + "".join("\n\n@pytest.fixture\ndef %s():\n    return 1\n" % nm
-                                                  for nm in ("dep_a", "dep_b", "dep_c", "mark_dep", "ind_dep")))
+                                                  for nm in ("dep_a", "dep_b", "dep_c", "mark_dep", "ind_dep", "d", "sample", "fx")))
         srv = lsp.Server()
         try:
             srv.initialize(root)
@@ -571,19 +574,26 @@ def check_c15(tier):
         # call-hierarchy ranges: every fromRange of an outgoing call covers exactly the parameter that names the called fixture,
         # every fromRange of an incoming call exactly the name of this fixture in the caller's signature (ASCII lines here, so
         # UTF-16 columns are character columns)
+        _, cuses = cpyextract.extract(text)
         for kind, want_name in (("outgoing", None), ("incoming", "fx_sample")):
             calls = r.get(kind)
             if not isinstance(calls, list):
                 continue
             for call in calls:
                 nm = want_name or call["to"]["name"]
+                # where the documented rules (CPython) see this name requested: parameters of fx_sample (outgoing) or the
+                # parameter of the test that requests fx_sample (incoming)
+                want_pos = {(u["line"] - 1, u["u0"], u["u1"]) for u in cuses if u["name"] == nm and "u0" in u
+                            and u["kind"] == ("fixture_param" if kind == "outgoing" else "test_param")}
                 for rg in call.get("fromRanges", []):
                     ok = inside(rg) and rg["start"]["line"] == rg["end"]["line"]
                     got = lines[rg["start"]["line"]][rg["start"]["character"]:rg["end"]["character"]] if ok else None
                     if ok and not lines[rg["start"]["line"]].isascii():
                         continue
-                    if got != nm:
-                        V.violation(dict(ex, call_hierarchy=kind, fixture=nm, range=rg, text_at_range=got),
+                    here = (rg["start"]["line"], rg["start"]["character"], rg["end"]["character"])
+                    if got != nm or (want_pos and here not in want_pos):
+                        V.violation(dict(ex, call_hierarchy=kind, fixture=nm, range=rg, text_at_range=got,
+                                         parameter_positions=sorted(want_pos)),
                                     "a call-hierarchy range does not cover exactly the identifier that names the fixture there")
     shutil.rmtree(base, ignore_errors=True)
     V.sample({"construct": cases[0]["c"], "line": "".join(piece_text(p) for p in (cases[0]["line"]["before"] or [])) + "...",
